@@ -220,7 +220,7 @@ template <class T, class Sh, class P, class Pinv, int ENTRY, int SRC> static inl
 
 // ---- transpose / trans / ctrans ---------------------------------------------------------------------------------
 enum TEntry { T_TRANSPOSE = 0, T_TRANS_CTOR = 1, T_TRANS_ASSIGN = 2, T_CTRANS_CTOR = 3, T_CTRANS_ASSIGN = 4, T_TRANSPOSE_EXPR = 5, T_TRANS_EXPR = 6,
-              T_CTRANSPOSE = 7, T_BATCH = 8 };
+              T_CTRANSPOSE = 7, T_BATCH = 8, T_TRANS_ADD = 9, T_TRANS_SUB = 10, T_TRANS_MUL = 11, T_TRANS_DIV = 12 };
 template <int E> struct TTag {};
 // R = the type the library itself attaches to the result (function return type, or the expression's result_type)
 template <class A> static FASTOR_INLINE auto tcall(TTag<T_TRANSPOSE>, const A& a) -> decltype(transpose(a)) { return transpose(a); }
@@ -235,6 +235,16 @@ template <class A> static FASTOR_INLINE auto tcall(TTag<T_TRANS_ASSIGN>, const A
     typename decltype(trans(a))::result_type r; r = trans(a); return r; }
 template <class A> static FASTOR_INLINE auto tcall(TTag<T_CTRANS_ASSIGN>, const A& a) -> typename decltype(ctrans(a))::result_type {
     typename decltype(ctrans(a))::result_type r; r = ctrans(a); return r; }
+
+// trans() consumed by a compound assignment; the destination is prepared so that the result is again exactly the transpose
+template <class A> static FASTOR_INLINE auto tcall(TTag<T_TRANS_ADD>, const A& a) -> typename decltype(trans(a))::result_type {
+    typename decltype(trans(a))::result_type r; r.zeros(); r += trans(a); return r; }
+template <class A> static FASTOR_INLINE auto tcall(TTag<T_TRANS_SUB>, const A& a) -> typename decltype(trans(a))::result_type {
+    typename decltype(trans(a))::result_type r, s; r.zeros(); s.zeros(); r -= trans(a); s -= r; return s; }
+template <class A> static FASTOR_INLINE auto tcall(TTag<T_TRANS_MUL>, const A& a) -> typename decltype(trans(a))::result_type {
+    typename decltype(trans(a))::result_type r; r.ones(); r *= trans(a); return r; }
+template <class A> static FASTOR_INLINE auto tcall(TTag<T_TRANS_DIV>, const A& a) -> typename decltype(trans(a))::result_type {
+    typename decltype(trans(a))::result_type t(transpose(a)), q; q = t * t; q /= trans(a); return q; }
 
 struct TJob {
     size_t B, M, N; int entry; bool conj;
